@@ -108,6 +108,13 @@ def call_probes():
     out.append(("call:inl_chain", HDR + "def c3(a):\n    return a * a + 1\n\ndef c2(a):\n    t = a + 2\n    return c3(t) - a\n\ndef c1(a, b):\n    u = a * b\n    return c2(u) + a * 10 + b\n\ndef outer(x, y):\n    db.Setting = c1(x, y) + x * y\n\nouter(d0.Setting, d1.Setting)\nouter(1, 2)\n"))
     out.append(("call:inl_in_while_cond", HDR + "def inner(a):\n    t = a * 2\n    return t + 1\n\ndef outer(x, y):\n    k = 0\n    while inner(k) < x + y:\n        k = k + 1\n        if k > 3:\n            break\n    db.Setting = k\n\nouter(d0.Setting, d1.Setting)\nouter(1, 2)\n"))
     out.append(("call:two_inl_one_stmt", HDR + "def f1(a):\n    b = a * 2\n    return b + 1\n\ndef f2(a):\n    c = a * 3\n    return c + 2\n\ndef outer(x, y):\n    db.Setting = f1(x) * f2(y) + x\n\nouter(d0.Setting, d1.Setting)\nouter(1, 2)\n"))
+    # a return on the function's last source line that sits inside a loop
+    out.append(("call:return_last_line_for", HDR + "def pulse(lim):\n    for i in range(4):\n        db.Mode = i\n        if i >= lim:\n            return\n\npulse(d0.Setting)\ndb.On = 1\npulse(2)\n"))
+    out.append(("call:return_last_line_while", HDR + "def wait(lim):\n    c = 0\n    while True:\n        c += 1\n        db.Mode = c\n        if c > lim:\n            return c\n\ndb.Setting = wait(d0.Setting)\ndb.On = wait(1)\n"))
+    out.append(("call:return_last_line_else_with_call", HDR + "def g(v):\n    db.On = v\n\ndef pick(x):\n    g(x)\n    if x > 5:\n        y = x * 2\n        return y\n    else:\n        return 20\n\ndb.Setting = pick(d0.Setting)\ndb.Mode = pick(d1.Setting)\n"))
+    # a function that calls a function defined later in the file (rejected by the pinned tree)
+    out.append(("call:forward_reference", HDR + "def cycle(v):\n    arm(v)\n    db.Mode = v\n\ndef arm(v):\n    db.Setting = v + 100\n\ncycle(d0.Setting)\ncycle(3)\ndb.Setting = -1\n"))
+    out.append(("call:forward_reference_twice", HDR + "def cycle(v):\n    arm(v)\n    arm(v + 1)\n    db.Mode = v\n\ndef arm(v):\n    db.Setting = v + 100\n\ncycle(d0.Setting)\ndb.Setting = -1\n"))
     out.append(("stmt:multiline_expr", HDR + "def g(n):\n    v = d0.Setting\n    v = v + n\n    x = (v +\n         d1.Setting * 2)\n    y = (x if v > 1\n         else d2.Setting * 3)\n    db.Setting = x\n    db.Mode = y\n\ng(d3.Setting)\ng(1)\n"))
     out.append(("stmt:multiline_last_use", HDR + "def g(n):\n    v = d0.Setting\n    v = v + n\n    x = (v +\n         d1.Setting * 2)\n    db.Setting = x\n\ng(d3.Setting)\ng(1)\n"))
     out.append(("stmt:multiline_last_use_args", HDR + "def f(a, b, c):\n    return a * 100 + b * 10 + c\n\ndef g(n):\n    v = d0.Setting\n    v = v + n\n    w = f(\n        v,\n        d1.Setting * 2,\n        d2.Setting + 1,\n    )\n    db.Setting = w\n\ng(d3.Setting)\ng(2)\n"))
@@ -212,6 +219,9 @@ def lifetime_probes():
                           ("start_stop", "def total(lo, hi):\n    acc = 0\n    for k in range(lo, hi):\n", "total(d0.Setting, d1.Setting) + total(1, 4)"),
                           ("step", "def total(lo, hi, st):\n    acc = 0\n    for k in range(lo, hi, st):\n", "total(0, d1.Setting, 2) + total(1, 8, 3)")):
         out.append((f"life:range_bound_param:{nm}", HDR + hdr + "        acc = acc + k * k\n        d2.Setting = acc - k * 2\n    return acc\n\ndb.Setting = " + call + "\n"))
+    out.append(("life:nested_loops_call", HDR + "def show(v):\n    t = v * 10\n    db.Mode = t + 1\n\ndef grid(n):\n    for row in range(2):\n        for col in range(3):\n            base = col + 100\n            show(col)\n            base += row\n            db.Setting = base + n\n\ngrid(d0.Setting)\nshow(5)\n"))
+    out.append(("life:triple_loops_call", HDR + "def show(v, w):\n    t = v * 10 + w\n    u = t * 2\n    db.Mode = u + 1\n\ndef cube(n):\n    for a in range(2):\n        for b in range(2):\n            for c in range(2):\n                keep = a * 100 + b * 10 + c\n                other = keep + n\n                show(c, b)\n                db.Setting = keep + other\n\ncube(d0.Setting)\nshow(5, 6)\n"))
+    out.append(("life:while_for_call", HDR + "def show(v):\n    t = v + 1\n    db.Mode = t * 3\n\ndef run(n):\n    k = 0\n    while k < 2:\n        k += 1\n        for jj in range(2):\n            held = jj * 10 + k\n            show(jj)\n            db.Setting = held + n\n\nrun(d0.Setting)\nshow(9)\n"))
     out.append(("life:two_loops_seq", F + "    a = d0.Setting\n    for i in range(2):\n        p = a + i\n        d1.Setting = p\n    b = d2.Setting\n    for k in range(2):\n        q = b + k + a\n        d4.Setting = q\n    db.Setting = a + b + n\n\nf(d3.Setting)\nf(2)\n"))
     return out
 
@@ -266,6 +276,10 @@ def construct_probes():
     out.append(("elif:chain4", pre + "if a > 10:\n    db.Setting = 1\nelif a > 5:\n    db.Setting = 2\nelif b > 5:\n    db.Setting = 3\nelif c:\n    db.Setting = 4\nelse:\n    db.Setting = 5\ndb.Mode = 9\n"))
     out.append(("elif:no_else", pre + "if a > 10:\n    db.Setting = 1\nelif a > 5:\n    db.Setting = 2\nelif b > 5:\n    db.Setting = 3\ndb.Mode = 9\n"))
     out.append(("elif:nested", pre + "if a > 1:\n    if b > 1:\n        db.Setting = 1\n    elif c > 1:\n        db.Setting = 2\n    db.On = 1\nelif b > 1:\n    db.Setting = 3\nelse:\n    if c > 1:\n        db.Setting = 4\ndb.Mode = 9\n"))
+    out.append(("else:if_else_then_stmt", pre + "y = 0\nif a < 10:\n    y = 1\nelse:\n    if a < 20:\n        y = 2\n    else:\n        y = 3\n    y += 10\ndb.Setting = y\n"))
+    out.append(("else:if_elif_then_stmt", pre + "y = 0\nif a < 10:\n    y = 1\nelse:\n    if a < 20:\n        y = 2\n    elif b > 1:\n        y = 3\n    y += 10\n    db.Mode = y\ndb.Setting = y\n"))
+    out.append(("if:if_else_then_stmt", pre + "y = 0\nif a < 10:\n    if b < 20:\n        y = 2\n    else:\n        y = 3\n    y += 10\nelse:\n    y = 1\ndb.Setting = y\n"))
+    out.append(("elif:then_stmt_in_func", HDR + "def cls(a, b):\n    y = 0\n    if a < 10:\n        y = 1\n    elif a < 20:\n        if b:\n            y = 2\n        else:\n            y = 3\n        y += 10\n    else:\n        y = 4\n    return y\n\ndb.Setting = cls(d0.Setting, d1.Setting)\ndb.Mode = cls(15, 0)\n"))
     out.append(("stack:computed", pre + "stack[100 + 1] = a\nstack[a + 100] = b\ndb.Setting = stack[100 + a] + stack[c]\n"))
     out.append(("order:sleep_yield", pre + "db.Setting = 1\nsleep(a)\ndb.Setting = 2\nyield_()\ndb.Mode = b\nsleep(0.5)\nyield_()\ndb.On = 1\n"))
     out.append(("unary:minus", pre + "db.Setting = -a\ndb.Mode = -a * -b\ndb.On = -(-a)\nx = -3\ndb.Open = x - a\ndb.Lock = a - -2\n"))
